@@ -304,6 +304,14 @@ def run_overview(sx, cfg, env):
         # several rows in one overview, layers without communication parameters in between
         spec["layers"].insert(1, {"name": "SD1", "type": "ecu-shared-data", "parents": []})
         spec["layers"].append({"name": "SD2", "type": "ecu-shared-data", "parents": []})
+    want_dops = None
+    if cfg.get("dops"):
+        # data objects along the chain: the protocol defines three, the variant excludes two of
+        # them by NOT-INHERITED-DOPS (without redefining them), overrides one and adds one
+        spec["layers"][0]["dops"] = ["temperature", "pressure", "speed"]
+        spec["layers"][-1 if not cfg.get("rows") else 2].update(
+            dops=["speed", "voltage"], not_inherited={"dops": ["temperature", "pressure"]})
+        want_dops = {"P1": 3, "EV": 2, "SD1": 0, "SD2": 0}  # EV: speed (its own), voltage
     built = H.build_hierarchy(spec)["layers"]
     rows = [built[x] for x in cfg.get("rows", ["EV"])]
     seen = []
@@ -322,6 +330,9 @@ def run_overview(sx, cfg, env):
         sx.require(cells[2][i] == str(len(list(layer.services))), "overview-counts-the-services")
         sx.require(cells[3][i] == str(len(layer.diag_data_dictionary_spec.data_object_props)),
                    "overview-counts-the-data-objects")
+        if want_dops is not None:
+            sx.require(cells[3][i] == str(want_dops[layer.short_name]),
+                       "overview-counts-the-data-objects-visible-in-the-layer")
         want = {"EV": n, "P1": min(1, len(names)), "SD1": 0, "SD2": 0}[layer.short_name]
         sx.require(cells[4][i] == str(want), "overview-counts-the-communication-parameters")
 
@@ -351,6 +362,8 @@ def configs(tier, seed):
         out.append({"id": f"database/{e}", "harness": "database", "edit": e, "build": {}})
     for n in (0, 1, 3, 4):
         out.append({"id": f"overview/{n}-comparams", "harness": "overview", "n": n, "build": {}})
+    out.append({"id": "overview/data-objects-not-inherited", "harness": "overview", "n": 2, "dops": True,
+                "rows": ["P1", "EV"], "build": {}})
     for q in (1, 2):
         out.append({"id": f"overview/3-comparams-{q}-qualified", "harness": "overview", "n": 3,
                     "qualified": q, "build": {}})
